@@ -137,7 +137,7 @@ func runPsi(c *fw.Ctx) {
 		}
 		b.flush(cs)
 	})
-	c.Cases("psi.sweep", c.N(1500, 40000), func(cs *fw.Case) {
+	c.Cases("psi.sweep", c.N(1500, 20000), func(cs *fw.Case) {
 		r := cs.R
 		b := &rec{}
 		for i := 0; i < 4; i++ {
